@@ -261,7 +261,7 @@ func intrinsicTable() map[string]intrinsic {
 		name := m.argStr(a[0])
 		outLen := m.argInt(a[1])
 		var targs []*Term
-		sig := name
+		sig := fmt.Sprintf("%s_o%d", name, outLen)
 		vs := a[2].(SliceV)
 		if vs.c != nil {
 			n := m.concretize(vs.len)
@@ -368,11 +368,11 @@ func (m *Machine) noteUF(name, sig string, app *Term) {
 	}
 	x := app.args[len(app.args)-1]
 	// signature of the inverse: same key argument widths, data argument width = width of F's result
-	isig := inv
+	isig := fmt.Sprintf("%s_o%d", inv, x.w/8)
 	parts := strings.Split(sig[len(name):], "_")
-	// parts[0] == "" ; parts[1:] are byte lengths of all arguments (including empty ones)
+	// parts[0] == "", parts[1] == "o<outlen>", parts[2:] are the byte lengths of all arguments (including empty ones)
 	lastIdx := len(parts) - 1
-	for i := 1; i < len(parts); i++ {
+	for i := 2; i < len(parts); i++ {
 		if i == lastIdx {
 			isig += fmt.Sprintf("_%d", app.w/8)
 		} else {
@@ -542,6 +542,15 @@ func (m *Machine) ensureInit(pkg *ssa.Package) {
 	if initFn.Blocks == nil {
 		return
 	}
+	defer func() {
+		if r := recover(); r != nil {
+			m.inconclusive(fmt.Sprintf("initializer of %s did not complete: %v", path, r))
+			if !kit {
+				delete(m.pinited, pkg)
+			}
+			panic(r)
+		}
+	}()
 	m.runSync(FuncV{fn: initFn}, nil, true, !kit)
 }
 
